@@ -18,6 +18,8 @@ def main(tier):
     from contracts import ioclient_c as I
     for cls in ('EByteNmea2000Gateway', 'ActisenseNmea2000Gateway', 'YachtDevicesNmea2000Gateway', 'WaveShareNmea2000Gateway'):
         run.add(I.ReceiveImplTask('C06', cls))
+        if cls == 'WaveShareNmea2000Gateway':
+            run.add(I.ReceiveImplTask('C06', cls, later_iteration=True))
     # messages longer than one frame: the packets carry the frames _encode_fast_message cuts (its segmentation contract,
     # also part of C03) and the identifier built / parsed by the header pair (also part of C05)
     from props.C03 import EncodeFastTask
